@@ -33,7 +33,17 @@ impl Prop for C12 {
             input_len: (0, 30),
             ..Knobs::default()
         };
-        gen::gen_world(rng, &k).world
+        let mut gw = gen::gen_world(rng, &k);
+        if gw.world.configs.len() == 2 && rng.chance(1, 2) {
+            // the second configuration is a near-variant of the first (shares modes / patterns with
+            // it), so that anything keyed too coarsely in the process-wide cache is shared
+            let kind = *rng.pick(&["pattern_char", "pattern_char", "token_type", "swap_patterns", "la_flip", "tr_retarget", "rename_mode"]);
+            if let Some(v) = gen::near_variant(rng, &gw.world.configs[0].clone(), kind, &gw.alphabet) {
+                gw.world.configs[1] = v;
+                mark("probe.near_variant_scanners");
+            }
+        }
+        gw.world
     }
     fn new_gen<'w>(&self, world: &'w World, rng: &mut Rng) -> Box<dyn Gen + 'w> {
         let clients = rng.range(2, 4);
@@ -74,7 +84,7 @@ impl Prop for C12 {
         &[
             "probe.two_live_iters_two_ctx_switches", "probe.neighbour_midstream_in_other_mode", "probe.shared_scanner",
             "probe.two_handles_one_cached_compilation", "probe.unrelated_scanners", "probe.scanner_reused_for_second_input",
-            "probe.scanner_rebuilt_while_iterators_live", "probe.scanner_dropped_while_iterators_live", "probe.solo_replays",
+            "probe.scanner_rebuilt_while_iterators_live", "probe.near_variant_scanners", "probe.scanner_dropped_while_iterators_live", "probe.solo_replays",
             "probe.policy_uniform", "probe.policy_bursty", "probe.policy_pct", "probe.policy_round_robin",
             "fault.abandon", "fault.mode_override",
         ]
@@ -270,6 +280,8 @@ impl<'w> Exec12<'w> {
     fn solo(&self, inst: &Inst) -> Option<Violation> {
         let cfg = &self.world.configs[inst.cfg];
         let input: &str = &self.world.inputs[inst.input];
+        // the solo replay must not depend on what the interleaved run left in the process-wide cache
+        scnr::verif::clear_scanner_cache();
         let sc = match sut::build(cfg, inst.how) {
             Ok(s) => s,
             Err(e) => {
